@@ -356,9 +356,101 @@ def _inline_direct_closure_calls(fns_by_path, f):
     return raw, used
 
 
+TRY_FOLD = re.compile(r"iter::(traits::iterator::)?Iterator::try_fold$")
+
+
+def _desugar_try_fold(fns_by_path, f, raw):
+    """`it.try_fold(init, step)?` is the loop `let mut acc = init; for x in it { acc = step(acc, x)?; } acc` (R = Option / Result; `step`
+    a function or closure of this crate).  The call is replaced by that loop so that the rules which read loops (component walks,
+    progress, decision tables per trip) see one program whichever way it is written."""
+    cur = raw if raw is not None else f.raw
+    todo = []
+    for bi, b in enumerate(cur["blocks"]):
+        t = b["term"]
+        if b.get("cleanup") or not t or t["k"] != "call" or len(t.get("args") or []) != 3 or not TRY_FOLD.search(t.get("callee") or "") or t.get("target") is None:
+            continue
+        fn_op = t["args"][2]
+        step = None
+        if fn_op["k"] == "const" and fn_op.get("fn"):
+            step = fns_by_path.get(fn_op["fn"])
+        elif fn_op["k"] != "const" and not fn_op["place"]["p"]:
+            cp = _closure_of(cur, fn_op["place"]["l"])
+            step = fns_by_path.get(cp) if cp else None
+        dty = (t["dest"].get("ty") or cur["locals"][t["dest"]["l"]].get("ty") or "")
+        fam = "Option" if dty.startswith("std::option::Option") else ("Result" if dty.startswith("std::result::Result") else None)
+        if step is None or fam is None or len(step.blocks) > 40:
+            continue
+        todo.append((bi, step, fam))
+    if not todo:
+        return raw, set()
+    if raw is None:
+        raw = copy.deepcopy(f.raw)
+    used = set()
+    for bi, step, fam in todo:
+        blk = raw["blocks"][bi]
+        t = blk["term"]
+        span = t["span"]
+        dest, target = t["dest"], t["target"]
+        is_closure = step.kind == "Closure"
+
+        def new_local(ty, name=None):
+            raw["locals"].append({"ty": ty, "name": name})
+            return len(raw["locals"]) - 1
+
+        def new_block():
+            raw["blocks"].append({"stmts": [], "term": None, "cleanup": False})
+            return len(raw["blocks"]) - 1
+
+        def asg(b_, place, rv):
+            raw["blocks"][b_]["stmts"].append({"k": "assign", "place": place, "rv": rv, "span": span, "expn": None})
+        L = lambda l, ty="?": {"l": l, "p": [], "ty": ty}
+        mv = lambda l, ty="?": {"k": "move", "place": L(l, ty)}
+        acc = new_local("?", "acc")
+        a0_ = t["args"][0]
+        it_ty = (raw["locals"][a0_["place"]["l"]].get("ty") if a0_["k"] != "const" and not a0_["place"]["p"] else a0_.get("ty")) or "?"
+        it = new_local(it_ty)
+        nx = new_local("std::option::Option<?>")
+        d1 = new_local("isize")
+        item = new_local("?")
+        fr = new_local(step.locals[0]["ty"])
+        br = new_local("std::ops::ControlFlow<?>")
+        d2 = new_local("isize")
+        head, after_next, body, after_step, after_branch, cont, brk, done = [new_block() for _ in range(8)]
+        asg(bi, L(acc), {"k": "use", "op": t["args"][1]})
+        asg(bi, L(it), {"k": "use", "op": t["args"][0]})
+        blk["term"] = {"k": "goto", "target": head, "span": span, "expn": t.get("expn")}
+        raw["blocks"][head]["term"] = {"k": "call", "callee": "std::iter::Iterator::next", "resolved": None, "resolved_local": False, "gargs": [], "trait": None,
+                                       "self_ty": re.sub(r"^&(mut )?", "", it_ty),
+                                       "args": [{"k": "copy", "place": L(it)}], "dest": L(nx), "target": after_next, "unwind": None, "span": span, "fn_span": span, "expn": None}
+        asg(after_next, L(d1, "isize"), {"k": "discr", "place": L(nx), "adt": "std::option::Option", "vars": [[0, "None"], [1, "Some"]]})
+        raw["blocks"][after_next]["term"] = {"k": "switch", "discr": mv(d1, "isize"), "dty": "isize", "targets": [[0, done]], "otherwise": body, "span": span, "expn": None}
+        asg(body, L(item), {"k": "use", "op": {"k": "move", "place": {"l": nx, "p": [{"k": "downcast", "v": "Some", "i": 1}, {"k": "field", "i": 0, "n": "0", "adt": "std::option::Option", "ty": "?"}], "ty": "?"}}})
+        args = ([t["args"][2]] if is_closure else []) + [{"k": "copy", "place": L(acc)}, mv(item)]
+        raw["blocks"][body]["term"] = {"k": "call", "callee": step.path, "resolved": step.path, "resolved_local": True, "gargs": [], "trait": None, "self_ty": None,
+                                       "args": args, "dest": L(fr), "target": after_step, "unwind": None, "span": span, "fn_span": span, "expn": None}
+        raw["blocks"][after_step]["term"] = {"k": "call", "callee": "std::ops::Try::branch", "resolved": None, "resolved_local": False, "gargs": [], "trait": None, "self_ty": None,
+                                             "args": [mv(fr)], "dest": L(br), "target": after_branch, "unwind": None, "span": span, "fn_span": span, "expn": ["desugar:QuestionMark"]}
+        asg(after_branch, L(d2, "isize"), {"k": "discr", "place": L(br), "adt": "std::ops::ControlFlow", "vars": [[0, "Continue"], [1, "Break"]]})
+        raw["blocks"][after_branch]["term"] = {"k": "switch", "discr": mv(d2, "isize"), "dty": "isize", "targets": [[0, cont]], "otherwise": brk, "span": span, "expn": ["desugar:QuestionMark"]}
+        asg(cont, L(acc), {"k": "use", "op": {"k": "move", "place": {"l": br, "p": [{"k": "downcast", "v": "Continue", "i": 0}, {"k": "field", "i": 0, "n": "0", "adt": "std::ops::ControlFlow", "ty": "?"}], "ty": "?"}}})
+        raw["blocks"][cont]["term"] = {"k": "goto", "target": head, "span": span, "expn": None}
+        res = new_local("?")
+        asg(brk, L(res), {"k": "use", "op": {"k": "move", "place": {"l": br, "p": [{"k": "downcast", "v": "Break", "i": 1}, {"k": "field", "i": 0, "n": "0", "adt": "std::ops::ControlFlow", "ty": "?"}], "ty": "?"}}})
+        raw["blocks"][brk]["term"] = {"k": "call", "callee": "std::ops::FromResidual::from_residual", "resolved": None, "resolved_local": False, "gargs": [], "trait": None, "self_ty": None,
+                                      "args": [mv(res)], "dest": dest, "target": target, "unwind": None, "span": span, "fn_span": span, "expn": ["desugar:QuestionMark"]}
+        asg(done, dest, _agg(FAMILY[fam][0], "Some" if fam == "Option" else "Ok", [{"k": "copy", "place": L(acc)}]))
+        raw["blocks"][done]["term"] = {"k": "goto", "target": target, "span": span, "expn": None}
+        if is_closure:
+            _inline_call(raw, body, step.raw)
+            used.add(step.path)
+    return raw, used
+
+
 def desugar_combinators(fns_by_path, f):
     """-> new Fn with every closure-taking combinator call (closure written in this crate) replaced by its match; None if nothing changed"""
     raw, used = _inline_direct_closure_calls(fns_by_path, f)
+    raw, used2 = _desugar_try_fold(fns_by_path, f, raw)
+    used |= used2
     changed = raw is not None
     for _ in range(4):
         cur = raw if raw is not None else f.raw
